@@ -553,7 +553,7 @@ def gen_items(tier):
     return items, two, len(d2), len(d3)
 
 
-PAIR_K = {"quick": -1, "thorough": 8}  # negative: without explicit None
+PAIR_K = {"quick": -1, "thorough": 6}  # negative: without explicit None
 
 
 def run_installed_family(pool, tier, names, seed, fname="run_installed"):
